@@ -331,6 +331,14 @@ func c11World(rc *kernel.RunCtx) {
 			}
 			k.Quiesce()
 			evals += 2
+			wantB := other.chunks[0]
+			if bFails {
+				if recB.status != http.StatusInternalServerError || bytes.Contains(recB.body.Bytes(), []byte("BBBB")) || bytes.Contains(recB.body.Bytes(), []byte("[[chunk")) {
+					rc.Fail("C11/concurrent-request-corrupts-response", "request B failed while request A (%d-byte document) was held in its Write: B got status %d and %q", len(D), recB.status, kernel.Short(recB.body.String(), 200))
+				}
+			} else if recB.status != http.StatusOK || !bytes.Equal(recB.body.Bytes(), wantB) {
+				rc.Fail("C11/concurrent-request-corrupts-response", "request B (%d x 'B') was served while request A (%d-byte document) was held in its Write: B got status %d and %q", len(wantB), len(D), recB.status, kernel.Short(recB.body.String(), 200))
+			}
 			if recA.status != 201 || !bytes.Equal(recA.body.Bytes(), D) {
 				rc.Fail("C11/concurrent-request-corrupts-response", "request A (%d-byte document, status 201) was held in its Write while request B (fails=%v) was served: A got status %d and %q", len(D), bFails, recA.status, kernel.Short(recA.body.String(), 200))
 			}
